@@ -7,7 +7,7 @@ import operator as _op
 import struct as _struct
 
 from .absint import AbsRaise, Inexact, exc_is_subclass
-from .values import (K, T, Obj, ListV, TupleV, SetV, DictV, FuncRef, ClassRef,
+from .values import (K, T, Obj, ListV, IterV, TupleV, SetV, DictV, FuncRef, ClassRef,
                      ExtRef, ModRef, AbsFunc, RegexV, NTupleV, NTClass, same,
                      show)
 
@@ -449,6 +449,14 @@ def _compare(interp, sym, a, b):
             except Exception as e:
                 raise py_exc(interp, e)
         items = None
+        if isinstance(b, IterV):
+            # membership in an iterator advances it past the first hit
+            for i, x in enumerate(list(b.items)):
+                if interp.truth(_compare(interp, '==', a, x)):
+                    b.items = b.items[i + 1:]
+                    return K(True)
+            b.items = []
+            return K(False)
         if isinstance(b, (ListV, TupleV, SetV)):
             items = b.items
         elif isinstance(b, DictV) and not b.unknown:
@@ -600,13 +608,21 @@ def subscript(interp, base, idx):
             if isinstance(idx, K) and not base.unknown:
                 raise AbsRaise(T('exc', 'KeyError', idx))
             # unknown key: might be any of the entries or missing
-            if interp.guide is not None and isinstance(idx, T):
+            if interp.guide is not None and isinstance(idx, (T, K)) and \
+                    (isinstance(idx, T) or
+                     any(isinstance(k, T) for k in base.keys)):
                 from .termeval import CannotEval, Raised
                 try:
-                    kv = interp.guide(idx)
-                    for k, v in zip(base.keys, base.vals):
+                    kv = interp.guide(idx) if isinstance(idx, T) else idx.v
+                    # later stores win: a key stored under a term may be
+                    # the same key as an earlier one
+                    for k, v in reversed(list(zip(base.keys, base.vals))):
                         if isinstance(k, K) and k.v == kv and \
                                 type(k.v) is type(kv):
+                            interp.assumptions.append(
+                                (T('cmp', '==', idx, k), True))
+                            return v
+                        if isinstance(k, T) and interp.guide(k) == kv:
                             interp.assumptions.append(
                                 (T('cmp', '==', idx, k), True))
                             return v
@@ -1240,6 +1256,16 @@ def method_term(interp, base, name, args, kwargs):
             interp.types[t] = 'bool'
         elif name in ('split', 'rsplit', 'splitlines', 'partition'):
             interp.types[t] = 'list'
+            if interp.guide is not None and name != 'partition':
+                # following one input: the list is built now, so that the
+                # code may change it in place afterwards
+                from .termeval import CannotEval, Raised
+                try:
+                    got = interp.guide(t)
+                    if isinstance(got, list):
+                        return from_python(got)
+                except (CannotEval, Raised):
+                    pass
         elif name in ('count', 'find', 'index', 'rfind'):
             interp.types[t] = 'int'
         if name in interp.method_raises:
@@ -1259,9 +1285,22 @@ def method_term(interp, base, name, args, kwargs):
                 'set', 'frozenset')):
         # a set built in place: its algebra is pure
         return t
+    if name in CONTAINER_MUTATORS and isinstance(tb, T) and (
+            bt in ('list', 'dict', 'set') or tb.op in (
+                'mcall', 'slice', 'binop', 'list', 'sorted', 'dictget')):
+        # the receiver is a value kept as a term (a list some pure call
+        # returned): changing it in place is not something a term can follow
+        raise Inexact('%s() on a %s kept as a term (%s)' % (
+            name, bt or 'value', show(tb)[:60]))
     interp.effect('mcall', name, tb, targs)
     interp.fresh_n += 1
     return T('mret', tb, name, interp.fresh_n, *targs)
+
+
+CONTAINER_MUTATORS = ('pop', 'append', 'extend', 'insert', 'remove', 'clear',
+                      'sort', 'reverse', 'popitem', 'setdefault', 'update',
+                      'add', 'discard', '__setitem__', '__delitem__',
+                      '__iadd__', '__imul__')
 
 
 PURE_SET_METHODS = ('intersection', 'union', 'difference', 'issubset',
@@ -1378,8 +1417,9 @@ def dict_method(interp, base, name, args, kwargs):
             return base.vals[i]
         if isinstance(args[0], K) and not base.unknown:
             return default
-        if isinstance(args[0], T) and not base.unknown and \
-                all(isinstance(k, K) for k in base.keys):
+        if isinstance(args[0], (T, K)) and (base.unknown or isinstance(
+                args[0], T)) and all(isinstance(k, (K, T))
+                                     for k in base.keys):
             # fork per key like a subscript; the missing-key path yields
             # the default
             try:
@@ -1580,11 +1620,11 @@ def b_range(interp, args, kwargs):
 def b_enumerate(interp, args, kwargs):
     items = interp.iterate(args[0])
     start = args[1].v if len(args) > 1 else kwargs.get('start', K(0)).v
-    return ListV([TupleV([K(start + i), x]) for i, x in enumerate(items)])
+    return IterV([TupleV([K(start + i), x]) for i, x in enumerate(items)])
 
 
 def b_reversed(interp, args, kwargs):
-    return ListV(list(reversed(interp.iterate(args[0]))))
+    return IterV(list(reversed(interp.iterate(args[0]))))
 
 
 class EndlessV:
@@ -1619,7 +1659,7 @@ def b_zip(interp, args, kwargs):
     n = min([len(x) for x in finite] or [0])
     seqs = [a.take(interp, n) if isinstance(a, EndlessV)
             else interp.iterate(a) for a in args]
-    return ListV([TupleV(list(t)) for t in zip(*seqs)])
+    return IterV([TupleV(list(t)) for t in zip(*seqs)])
 
 
 def b_it_repeat(interp, args, kwargs):
@@ -1680,7 +1720,7 @@ def b_it_islice(interp, args, kwargs):
 def b_it_starmap(interp, args, kwargs):
     if len(args) != 2 or isinstance(args[1], T):
         return NotImplemented
-    return ListV([interp.call(args[0], list(interp.iterate(x)))
+    return IterV([interp.call(args[0], list(interp.iterate(x)))
                   for x in interp.iterate(args[1])])
 
 
@@ -1695,7 +1735,7 @@ def _filtering(keep_true):
                 interp.call(pred, [x])
             if bool(interp.truth(r)) == keep_true:
                 out.append(x)
-        return ListV(out)
+        return IterV(out)
     return f
 
 
@@ -1944,8 +1984,10 @@ def b_iter(interp, args, kwargs):
         # iter(callable, sentinel): called lazily by the consuming loop
         from .absint import Iter2V
         return Iter2V(args[0], args[1])
-    if isinstance(args[0], (ListV, TupleV)):
+    if isinstance(args[0], IterV):
         return args[0]
+    if isinstance(args[0], (ListV, TupleV)):
+        return IterV(list(args[0].items))
     return T('call', 'iter', interp.termify(args[0]))
 
 
@@ -2180,11 +2222,11 @@ def b_map(interp, args, kwargs):
     if isinstance(args[1], T) and interp.guide is not None and \
             interp._guided_len(args[1]) is not None:
         # following one input: the elements are those of its value
-        return ListV([interp.call(args[0], [x])
+        return IterV([interp.call(args[0], [x])
                       for x in interp.iterate(args[1])])
     if isinstance(args[1], T):
         return T('call', 'map', interp.termify(args[0]), args[1])
-    return ListV([interp.call(args[0], [x])
+    return IterV([interp.call(args[0], [x])
                   for x in interp.iterate(args[1])])
 
 
